@@ -129,6 +129,12 @@ func productCases(tier string) []scen.Case {
 		case 2:
 			c.Methods = []scen.Method{twin, sib, m}
 		}
+		if n%4 == 3 {
+			// value receivers are methods of the controller just the same
+			for i := range c.Methods {
+				c.Methods[i].ValueRecv = i != 1
+			}
+		}
 		cases = append(cases, scen.Case{ID: id, Unit: scen.Unit{Controllers: []scen.Controller{c}},
 			Features: map[string]string{"family": family, "prefix": prefix, "route": route, "verb": verb, "hidden": fmt.Sprint(hidden), "deprecated": fmt.Sprint(deprecated), "tag": tag},
 			Desc:     []scen.Controller{c}})
